@@ -22,7 +22,7 @@ def run(ctx):
     if not q:
         cases = cases + [{"kind": "resume", "cfg": c, "variant": rng.randrange(1000)} for c in configs if c["hdr"] in ("ok", "none") for _ in range(4)]
     # scheduler walks: offsets at every stop position under arbitrary interleavings (stop scripts stop after k objects)
-    nw = 150 if q else 2500
+    nw = 150 if q else 8000
     walks = [{"kind": "walk", "cfg": rng.choice(configs), "script": rng.choice(plain + stop[:60]), "seed": rng.randrange(1 << 30),
               "cancelStep": -1, "variant": rng.randrange(1000), "weights": rng.choice(P.WEIGHTS)} for _ in range(nw)]
     cases += walks
